@@ -159,6 +159,13 @@ def abs (x : Nat) : Nat := Nat.mod x P63
 def max (x y : Nat) : Nat := neg (min (neg x) (neg y))
 def truncAbs (x : Nat) : Nat := flet x fun x => flet (ebits x) fun ex =>
   cond (Nat.ble 1075 (exf ex)) (Nat.shiftLeft (mant x ex) (Nat.sub (exf ex) 1075)) (Nat.shiftRight (mant x ex) (Nat.sub 1075 (exf ex)))
+/-- `int(x) % c == 0` as gc/amd64 computes it (`CVTTSD2SQ`): a NaN or a value with `|x| ≥ 2^63` converts to the "integer
+    indefinite" `-2^63`; otherwise the value is truncated toward zero, and `%` of a negative integer is zero exactly when the
+    magnitude is a multiple. (The biased exponent is ≥ 1023+63 = 1086 exactly for `|x| ≥ 2^63`, `±∞` and NaN.) -/
+def intRemZero (x c : Nat) : Bool := flet x fun x => flet (ebits x) fun ex =>
+  cond (Nat.ble 1086 (exf ex))
+    (Nat.beq (Nat.mod 9223372036854775808 c) 0)
+    (Nat.beq (Nat.mod (truncAbs x) c) 0)
 def ofNat (n : Nat) : Nat := rnd 0 n (Nat.add 4096 1075)
 
 
